@@ -820,7 +820,10 @@ func (p *Printer) paramExp(pe *ParamExp) {
 		if pe.Repl.Orig != nil {
 			p.word(pe.Repl.Orig)
 		}
-		p.w.WriteByte('/')
+		if pe.Repl.All || pe.Repl.Orig != nil || pe.Repl.With != nil {
+			// Without a pattern, a second slash would turn ${a/} into ${a//}.
+			p.w.WriteByte('/')
+		}
 		if pe.Repl.With != nil {
 			p.word(pe.Repl.With)
 		}
